@@ -581,6 +581,7 @@ func receiverVariant(r *mon.Run) {
 		r.Event("receiver_udp_unavailable", 1)
 	}
 	rng := r.Rand("receiver")
+	stallRng := r.Rand("receiver-stall")
 	for i := 0; i < rounds; i++ {
 		round := i*shards + shard
 		su := recvSetup{Mode: "scripted", Readers: 1 + rng.Intn(4), Batch: []int{1, 2, 5, 16, 50}[rng.Intn(5)], Parsers: 1 + rng.Intn(4),
@@ -594,6 +595,17 @@ func receiverVariant(r *mon.Run) {
 		}
 		if abort {
 			return // goroutines of that round are stuck; the witness is recorded
+		}
+		// back-pressure scenarios (stall_test.go): a single reader with batch size 1, or several readers
+		st := stallSetup{Mode: "scripted", Readers: 1, Batch: 1, Config: configs[stallRng.Intn(len(configs))], Round: round, Cycles: 4}
+		if i%2 == 1 {
+			st.Readers, st.Batch = 2+stallRng.Intn(3), []int{1, 4}[stallRng.Intn(2)]
+		}
+		if round%3 == 1 && udpOK {
+			st.Mode = "udp"
+		}
+		if stallScenario(r, stallRng, st, udpIPs) {
+			udpOK = false
 		}
 	}
 }
